@@ -1,4 +1,5 @@
 import Seccomp.Proofs.Lemmas.LoadFilterLemmas
+import Seccomp.Proofs.Lemmas.ChainLemmas
 /-!
 # C09 — a nil load result means the filter is in force; failed loads leave none behind
 
@@ -208,5 +209,28 @@ theorem probe_denied_example :
                        seccompAvailable := false, refusal := .eperm }
     (Gen.supported noU w).1 = false ∧ ((Gen.supported noU w).2.thr 1).nnp = false := by
   decide
+
+/-- **nil ⇒ the policy is enforced, whatever else is attached.**  The kernel runs every filter of a thread's
+    chain and keeps the most restrictive answer (`Model/Chain.lean`).  So after a nil result, for every event —
+    `val` gives each attached filter's answer to it — the calling thread's decision is at most as permissive
+    as the new filter's answer, and with thread-sync in the flag word so is every live thread's: earlier loads
+    (this process's own or inherited ones) can only restrict further, never undo the new policy. -/
+theorem load_nil_enforces (U : Unsupported) (filter : Filter) (w w' : World)
+    (hc : w.cur ∈ w.live) (h : Gen.loadFilter U filter w = (GoErr.nil, w')) (val : FilterId → Word) :
+    ∃ p, filter.policy = .prog p ∧
+      Chain.actionOnly (Chain.chain ((w'.thr w'.cur).filters.map val)) ≤ Chain.actionOnly (val p.id) ∧
+      (filter.flag &&& FLAG_TSYNC ≠ 0 → ∀ t ∈ w'.live,
+        Chain.actionOnly (Chain.chain ((w'.thr t).filters.map val)) ≤ Chain.actionOnly (val p.id)) := by
+  obtain ⟨p, hp, hcur, hall⟩ := load_nil_implies_installed U filter w w' hc h
+  have key : ∀ fs : List FilterId, fs.head? = some p.id →
+      Chain.actionOnly (Chain.chain (fs.map val)) ≤ Chain.actionOnly (val p.id) := by
+    intro fs hfs
+    apply Chain.runFrom_le_mem
+    cases fs with
+    | nil => cases hfs
+    | cons f rest =>
+      simp only [List.head?_cons, Option.some.injEq] at hfs
+      simp [hfs]
+  exact ⟨p, hp, key _ hcur, fun ht t hl => key _ (hall ht t hl)⟩
 
 end C09
